@@ -2,6 +2,7 @@ package c02
 
 import (
 	"context"
+	"errors"
 	"fmt"
 	"sort"
 	"strings"
@@ -9,6 +10,7 @@ import (
 	"testing"
 	"time"
 
+	"github.com/twmb/franz-go/pkg/kerr"
 	"github.com/twmb/franz-go/pkg/kfake"
 	"github.com/twmb/franz-go/pkg/kgo"
 
@@ -49,6 +51,8 @@ type state struct {
 	outcomes map[string][]outcome // what each promise invocation saw (Offset/Partition read inside the promise)
 	produced map[int32][]string   // order in which Produce was called, per partition
 	nparts   int32
+	total    int           // records the scenario produces
+	allDone  chan struct{} // closed when every record was promised
 	relaxed  bool // AllowIdempotentProduceCancellation: an error-promised record may be in the log
 }
 
@@ -68,6 +72,9 @@ func (st *state) promise() func(*kgo.Record, error) {
 		st.mu.Lock()
 		if n, ok := st.names[r]; ok {
 			st.outcomes[n] = append(st.outcomes[n], outcome{err: err, offset: r.Offset, partition: r.Partition})
+			if len(st.outcomes) == st.total && len(st.outcomes[n]) == 1 {
+				close(st.allDone)
+			}
 		}
 		st.mu.Unlock()
 		lp(r, err)
@@ -79,6 +86,22 @@ func nameOf(v string) string {
 		return v[:i]
 	}
 	return "?" + nscen.ErrClass(fmt.Errorf("%s", v))
+}
+
+// errKind is the stable class of a promise error (part of the violation key).
+func errKind(err error) string {
+	var ke *kerr.Error
+	switch {
+	case errors.Is(err, kgo.ErrRecordTimeout):
+		return "record-timeout"
+	case errors.Is(err, kgo.ErrRecordRetries):
+		return "record-retries"
+	case errors.Is(err, context.Canceled):
+		return "context-canceled"
+	case errors.As(err, &ke):
+		return ke.Message
+	}
+	return "other"
 }
 
 func faults(x *netctl.Exec, dir string, key int16, c *netctl.Conn) []string {
@@ -124,7 +147,7 @@ func scenario(v variant) *netctl.Scenario {
 				c.MoveTopicPartition("t", 1, 1)
 			}
 			st := &state{c: c, led: nscen.NewLedger(), names: map[*kgo.Record]string{}, outcomes: map[string][]outcome{},
-				produced: map[int32][]string{}, nparts: v.nparts, relaxed: v.relaxed}
+				produced: map[int32][]string{}, nparts: v.nparts, relaxed: v.relaxed, total: len(v.recs), allDone: make(chan struct{})}
 			x.Data = st
 			opts := append([]kgo.Opt{
 				kgo.RecordPartitioner(kgo.ManualPartitioner()),
@@ -153,7 +176,26 @@ func scenario(v variant) *netctl.Scenario {
 				})
 			}
 			if v.move {
+				// The move becomes possible once the first Produce request reached
+				// a broker (a move before that is only a different initial
+				// placement); by default it happens right then, i.e. while that
+				// request is unanswered, and deviations delay it.
+				first, giveUp := make(chan struct{}), make(chan struct{})
+				var once sync.Once
+				x.FrameHook = func(_ *netctl.Conn, dir string, key, _ int16, _ []byte) {
+					if dir == "req" && key == 0 {
+						once.Do(func() { close(first) })
+					}
+				}
+				x.OnCleanup(func() { close(giveUp) })
 				x.Thread("ENV", func(t *netctl.Thread) {
+					select {
+					case <-first:
+					case <-giveUp:
+						return
+					case <-st.allDone: // every record failed before any Produce request was sent
+						return
+					}
 					t.Step("move-t0-to-b1")
 					c.MoveTopicPartition("t", 0, 1)
 				})
@@ -209,7 +251,13 @@ func final(x *netctl.Exec) {
 			known[n] = p
 		}
 	}
-	for n, hs := range where {
+	var inLog []string
+	for n := range where {
+		inLog = append(inLog, n)
+	}
+	sort.Strings(inLog)
+	for _, n := range inLog {
+		hs := where[n]
 		if _, ok := known[n]; !ok {
 			x.Violate("foreign-record", "log holds %q at %v which was never produced", n, hs)
 		}
@@ -222,7 +270,16 @@ func final(x *netctl.Exec) {
 			}
 		}
 	}
-	for n, want := range known {
+	var all []string
+	for n := range known {
+		all = append(all, n)
+	}
+	sort.Strings(all)
+	// One violation per class and execution (the records of a partition fail
+	// together, so a per-record report would only repeat itself).
+	agg := map[string][]string{}
+	for _, n := range all {
+		want := known[n]
 		oc := st.outcomes[n]
 		if len(oc) == 0 {
 			continue
@@ -231,20 +288,30 @@ func final(x *netctl.Exec) {
 		switch {
 		case o.err == nil:
 			if len(hs) == 0 {
-				x.Violate("acked-missing", "record %s promised success at offset %d but is not in the log  (%s)", n, o.offset, strings.Join(logs, " "))
+				agg["acked-missing"] = append(agg["acked-missing"], fmt.Sprintf("%s promised success at offset %d but is not in the log", n, o.offset))
 				continue
 			}
 			if len(hs) == 1 && (hs[0].offset != o.offset || o.partition != want) {
-				x.Violate("acked-offset-mismatch", "record %s promised success with partition %d offset %d but the log has it at partition %d offset %d  (%s)", n, o.partition, o.offset, hs[0].partition, hs[0].offset, strings.Join(logs, " "))
+				agg["acked-offset-mismatch"] = append(agg["acked-offset-mismatch"], fmt.Sprintf("%s promised success with partition %d offset %d but the log has it at partition %d offset %d", n, o.partition, o.offset, hs[0].partition, hs[0].offset))
 			}
 		case !st.relaxed:
 			if len(hs) > 0 {
-				x.Violate("failed-in-log", "record %s promised error %q but is in the log at %v  (%s)", n, o.err, hs, strings.Join(logs, " "))
+				k := "failed-in-log:" + errKind(o.err)
+				agg[k] = append(agg[k], fmt.Sprintf("%s promised error %q but is in the log at partition %d offset %d", n, o.err, hs[0].partition, hs[0].offset))
 			}
 		}
 	}
+	var keys []string
+	for k := range agg {
+		keys = append(keys, k)
+	}
+	sort.Strings(keys)
+	for _, k := range keys {
+		x.Violate(k, "%s  (%s)", strings.Join(agg[k], "; "), strings.Join(logs, " "))
+	}
 	// Produce order among the acknowledged records of a partition.
-	for p, names := range st.produced {
+	for p := int32(0); p < st.nparts; p++ {
+		names := st.produced[p]
 		last, lastName := int64(-1), ""
 		for _, n := range names {
 			oc := st.outcomes[n]
@@ -277,22 +344,26 @@ func final(x *netctl.Exec) {
 
 var (
 	six = []spec{{"r1", 0}, {"r2", 1}, {"r3", 0}, {"r4", 1}, {"r5", 0}, {"r6", 1}}
-	// Fail paths: a batch may be failed once it was sent more than
+	four = []spec{{"r1", 0}, {"r2", 0}, {"r3", 0}, {"r4", 0}}
+	// Fail paths. A batch may be failed once it was sent more than
 	// RecordRetries times or is older than RecordDeliveryTimeout, but only if
-	// the client is certain it was not appended.
-	failOpts = []kgo.Opt{kgo.RecordRetries(1), kgo.RecordDeliveryTimeout(30 * time.Second)}
+	// the client is certain it was not appended. The limits are chosen so that
+	// two deviations reach them: with RecordRetries(1) the second failed
+	// attempt is the last; with ProduceRequestTimeout 5s (+1s overhead) one
+	// stalled or never-answered request outlives RecordDeliveryTimeout(5s).
+	retryOpts   = []kgo.Opt{kgo.RecordRetries(1), kgo.RecordDeliveryTimeout(30 * time.Second)}
+	timeoutOpts = []kgo.Opt{kgo.RecordRetries(3), kgo.RecordDeliveryTimeout(5 * time.Second)}
+	cancelOpts  = []kgo.Opt{kgo.AllowIdempotentProduceCancellation(), kgo.RecordRetries(1), kgo.RecordDeliveryTimeout(5 * time.Second)}
 )
 
 var plans = []nrun.Plan{
-	{Scenario: scenario(variant{name: "I-1p", nparts: 1, move: true,
-		recs: []spec{{"r1", 0}, {"r2", 0}, {"r3", 0}, {"r4", 0}}, opts: failOpts}),
+	{Scenario: scenario(variant{name: "I-1p", nparts: 1, move: true, recs: four, opts: retryOpts}),
 		QuickBudget: 2, QuickFaultOnlyFrom: 2, ThoroughBudget: 3, ThoroughFaultOnlyFrom: 3, Weight: 1.5},
 	{Scenario: scenario(variant{name: "I-2p", nparts: 2, move: true, recs: six}),
 		QuickBudget: 1, ThoroughBudget: 2, ThoroughFaultOnlyFrom: 2},
-	{Scenario: scenario(variant{name: "I-fail", nparts: 2, move: true, recs: six, opts: failOpts}),
+	{Scenario: scenario(variant{name: "I-fail", nparts: 2, move: true, recs: six, opts: timeoutOpts}),
 		QuickBudget: 1, ThoroughBudget: 2, ThoroughFaultOnlyFrom: 2},
-	{Scenario: scenario(variant{name: "I-cancel", nparts: 2, move: true, recs: six, relaxed: true, cancelRec: "r3",
-		opts: append([]kgo.Opt{kgo.AllowIdempotentProduceCancellation()}, failOpts...)}),
+	{Scenario: scenario(variant{name: "I-cancel", nparts: 2, move: true, recs: six, relaxed: true, cancelRec: "r3", opts: cancelOpts}),
 		QuickBudget: 1, ThoroughBudget: 2, ThoroughFaultOnlyFrom: 2},
 }
 
